@@ -247,6 +247,9 @@ func _newPipe(ctx context.Context, connFn func(context.Context) (net.Conn, error
 				infoStr, err = r.ToString()
 				if err == nil {
 					if sm := infoAZ.FindStringSubmatch(infoStr); len(sm) > 1 {
+						if p.info == nil { // HELLO was rejected: there is no map to extend yet
+							p.info = make(map[string]RedisMessage, 1)
+						}
 						p.info["availability_zone"] = strmsg('+', sm[1])
 					}
 				}
@@ -358,6 +361,9 @@ func _newPipe(ctx context.Context, connFn func(context.Context) (net.Conn, error
 					infoStr, err = r.ToString()
 					if err == nil {
 						if sm := infoAZ.FindStringSubmatch(infoStr); len(sm) > 1 {
+							if p.info == nil { // HELLO 2 was rejected as well: there is no map to extend yet
+								p.info = make(map[string]RedisMessage, 1)
+							}
 							p.info["availability_zone"] = strmsg('+', sm[1])
 						}
 					}
